@@ -56,6 +56,8 @@ func (g *gen) laneReal() {
 	g.timed("realInterleave", g.realInterleave)
 	g.timed("realServerOptions", g.realServerOptions)
 	g.timed("realEncodings", g.realEncodings)
+	g.timed("realAssets", func() { g.laneAssets("h1"); g.laneAssets("h2c") })
+	g.timed("realDuplex", g.realDuplex)
 }
 
 // realEncodings: per-frame base64 grpc-web-text bodies and gzip streams that
@@ -127,6 +129,44 @@ func (g *gen) realEncodings() {
 			c := &Case{Lane: lane, T: "grpc", Codec: "gzip", Shape: "bidi", Echo: true, Step: true, Trunc: -1, Poison: true, Sched: "lockstep"}
 			c.Msgs = g.msgs([]string{"T", "E", "X", "T", "D9", "T"}, gz, 0)
 			build(c, bodyOpt{})
+			g.runReal(c)
+		}
+	}
+}
+
+// realDuplex: genuinely full-duplex handlers: a second handler goroutine
+// pushes many medium messages while the main loop receives large ones that
+// span many reads; conservation both ways.
+func (g *gen) realDuplex() {
+	r := g.r
+	nUp, nDown := r.Pick(12, 24), r.Pick(300, 600)
+	type lt struct {
+		lane string
+		tc   tcombo
+	}
+	lanes := []lt{{"grpc-go", tcombo{"grpc", "proto", ""}}, {"h2c", tcombo{"grpc", "proto", ""}}, {"h2c", tcombo{"grpc-web", "proto", ""}}}
+	if r.Thorough() {
+		lanes = append(lanes, lt{"grpc-go", tcombo{"grpc", "gzip", ""}}, lt{"h2c", tcombo{"grpc-web-text", "proto", ""}})
+	}
+	for round := 0; round < r.Pick(1, 3); round++ {
+		for _, l := range lanes {
+			up := make([]string, nUp)
+			for i := range up {
+				up[i] = []string{"D262144", "D200000", "D262144", "D70000"}[i%4]
+			}
+			down := make([]string, nDown)
+			for i := range down {
+				down[i] = []string{"D6144", "D6000", "T", "D6144"}[i%4]
+			}
+			c := &Case{Lane: l.lane, T: l.tc.T, Codec: l.tc.Codec, Shape: "bidi", Duplex: true, Trunc: -1, Sched: "full-duplex"}
+			c.Msgs = g.msgs(up, l.tc, 0)
+			c.Reply = g.msgs(down, l.tc, 0)
+			build(c, bodyOpt{})
+			if l.lane == "h2c" {
+				for left := len(c.Body); left > 0; left -= 16384 {
+					c.Cuts = append(c.Cuts, min(16384, left))
+				}
+			}
 			g.runReal(c)
 		}
 	}
